@@ -56,7 +56,19 @@ func (spec *Spec) Validate() error {
 		return fmt.Errorf("sourceNamespace and template cannot be specified at the same time")
 	}
 
+	if spec.Template != "" {
+		if _, err := spec.parseTemplate(); err != nil {
+			return err
+		}
+	}
+
 	return nil
+}
+
+func (spec *Spec) parseTemplate() (*template.Template, error) {
+	t := template.New("").Delims(spec.LeftDelim, spec.RightDelim)
+	t.Funcs(sprig.TxtFuncMap()).Funcs(extraFuncs)
+	return t.Parse(spec.Template)
 }
 
 func (b *Builder) reload(spec *Spec) {
@@ -64,9 +76,7 @@ func (b *Builder) reload(spec *Spec) {
 		return
 	}
 
-	t := template.New("").Delims(spec.LeftDelim, spec.RightDelim)
-	t.Funcs(sprig.TxtFuncMap()).Funcs(extraFuncs)
-	b.template = template.Must(t.Parse(spec.Template))
+	b.template = template.Must(spec.parseTemplate())
 }
 
 func (b *Builder) build(data map[string]interface{}, v interface{}) error {
